@@ -167,3 +167,9 @@ func init() {
 		runPrefixRule(c, "X.prefix", map[string]bool{"ReadRows": true, "ReadValues": true, "Read": true, "ReadAt": true, "WriteRows": true, "WriteValues": true, "Write": true, "ReadRow": true, "ReadValuesAt": true})
 	}})
 }
+
+func init() {
+	register(&Property{ID: "X-config", NeedSSA: false, Decided: "dump", NotDecided: "-", Run: func(c *Ctx) {
+		runConfigMergeRule(c, "X.config", nil)
+	}})
+}
